@@ -222,8 +222,15 @@ Definition v_neg (v : value) : res value :=
   | None => match v with VObj _ => Err EUnknown | _ => Err EType end
   end.
 
-Definition repeat_list {A} (l : list A) (n : Z) : list A :=
-  match n with Zpos p => Pos.iter (app l) [] p | _ => [] end.
+(** l * n.  None: the result would be longer than the model is prepared to build
+    ([sys.maxsize * (1,)]: the interpreter raises MemoryError; answered EUnknown, not compared) *)
+Definition rep_limit : Z := 65536.
+Definition repeat_list {A} (l : list A) (n : Z) : option (list A) :=
+  match l, n with
+  | [], _ => Some []
+  | _, Zpos p => if lenZ l * n <=? rep_limit then Some (Pos.iter (app l) [] p) else None
+  | _, _ => Some []
+  end.
 
 (** operator.add *)
 Definition v_add (a b : value) : res value :=
@@ -255,13 +262,16 @@ Definition v_sub (a b : value) : res value :=
     end
   end.
 
-Definition seq_times (v : value) (n : Z) : option value :=
+Definition rep_res {A} (mk : list A -> value) (x : list A) (n : Z) : res value :=
+  match repeat_list x n with Some r => Ok (mk r) | None => Err EUnknown end.
+
+Definition seq_times (v : value) (n : Z) : res value :=
   match v with
-  | VStr x => Some (VStr (repeat_list x n))
-  | VBytes x => Some (VBytes (repeat_list x n))
-  | VList x => Some (VList (repeat_list x n))
-  | VTuple x => Some (VTuple (repeat_list x n))
-  | _ => None
+  | VStr x => rep_res VStr x n
+  | VBytes x => rep_res VBytes x n
+  | VList x => rep_res VList x n
+  | VTuple x => rep_res VTuple x n
+  | _ => Err EType
   end.
 
 Definition as_index (v : value) : option Z :=
@@ -277,10 +287,10 @@ Definition v_mul (a b : value) : res value :=
     | VObj _, _ | _, VObj _ => Err EUnknown
     | _, _ =>
       match as_index b with
-      | Some n => match seq_times a n with Some r => Ok r | None => Err EType end
+      | Some n => seq_times a n
       | None =>
         match as_index a with
-        | Some n => match seq_times b n with Some r => Ok r | None => Err EType end
+        | Some n => seq_times b n
         | None => Err EType
         end
       end
